@@ -673,7 +673,7 @@ func (h *hist) stepFetch(forcedName, forcedPos string) {
 			c.pendingOvf["followup"] = detail
 			h.law("fetch_spec_relative_overflow", c.pendingOvf)
 		} else {
-			h.o.Count("overflow_not_observable")
+			h.o.Count("overflow_probe_ok")
 		}
 		c.pendingOvf = nil
 		c.ptr = int64(after) // resynchronise with the implementation
@@ -688,12 +688,14 @@ func (h *hist) stepFetch(forcedName, forcedPos string) {
 		h.aborted = true
 		return
 	}
+	if overflow {
+		// index+number left int64 (finding F9: the addition used to wrap around).  Whatever the pointer
+		// is now, the next step is a black-box probe: FETCH NEXT / PRIOR from where the manual says
+		// the pointer rests (law fetch_spec_relative_overflow).
+		c.pendingOvf = detail
+		return
+	}
 	if int64(after) != newPtr {
-		if overflow {
-			// not yet visible in what FETCH returned; the next step is a probe from the clamped position
-			c.pendingOvf = detail
-			return
-		}
 		h.law("fetch_spec", detail)
 		h.aborted = true
 	}
